@@ -74,6 +74,12 @@ public:
 
         static key_tuple min() { return {0UL, 0}; }
         static key_tuple max() { return {~0UL, sizeof(key_slice_type) + 1}; }
+        /**
+         * @brief A tuple greater than every tuple a node can hold, max() included.
+         * @details max() itself is the tuple of a layer link whose slice is all
+         * 0xFF, so it cannot serve as an exclusive upper start position.
+         */
+        static key_tuple sup() { return {~0UL, sizeof(key_slice_type) + 2}; }
 
     private:
         key_slice_type key_slice_{0};
